@@ -197,7 +197,7 @@ def gen_cases(seed, chunk, n, tier):
 
 
 def run(ctx):
-    n = 1200 if ctx.tier == "quick" else 30000
+    n = 8000 if ctx.tier == "quick" else 60000
     stream.run_stream(ctx, "graded", "harness.props.c03", "gen_cases", n, per_chunk=80,
                       canon_kw=dict(drop_zero=True))
 
